@@ -82,6 +82,12 @@ pub fn judge_c02(rec: &mut Recorder, c: &HistCase, ex: Exec, _hello: &Value) -> 
         let mut kinds: BTreeSet<String> = BTreeSet::new();
         let mut installs = 0;
         for (si, s) in l.steps.iter().enumerate() {
+            if s.kind.starts_with("reseal") {
+                if s.kind == "reseal/done" {
+                    rec.class("owner-resealed-the-code-pages-while-faked");
+                }
+                continue;
+            }
             let t = &o.targets[s.t];
             if s.kind.starts_with("install") {
                 installs += 1;
@@ -350,16 +356,29 @@ pub fn judge_c03(rec: &mut Recorder, c: &HistCase, ex: Exec, _hello: &Value) -> 
     let arena_pages: BTreeSet<u64> = o.arena_pages.iter().copied().collect();
     let mut named: BTreeSet<usize> = BTreeSet::new();
     let mut own_pages: BTreeSet<u64> = BTreeSet::new(); // trampoline pages currently live
+    // trampolines of installations that panicked after mapping them: the injector's own pages,
+    // whose fate is not this property's business
+    let mut stranded: BTreeSet<u64> = BTreeSet::new();
     for (li, l) in o.lifetimes.iter().enumerate() {
         let squat: BTreeSet<u64> = l.squat_pages.iter().copied().collect();
         if !squat.is_empty() {
             rec.class("foreign-code-on-released-trampoline-addresses");
+        }
+        if let Some((a, len)) = l.exec_removed.first() {
+            return rec.fail(&sig("execute-permission-removed-from-foreign-code"), format!("lifetime {li}: the injector called mprotect({a:#x}, {len}, <no PROT_EXEC>) on memory that is not one of its trampolines: until it gives the permission back, every function on those pages - named or not - cannot run; case {c:?}"));
+        }
+        let wx_denied = c.lifetimes.get(li % c.lifetimes.len().max(1)).map(|x| x.deny_wx).unwrap_or(false);
+        if wx_denied {
+            rec.class("lifetime-under-a-w^x-policy");
         }
         for (si, s) in l.steps.iter().enumerate() {
             if s.kind.starts_with("install") {
                 named.insert(s.t);
                 for t in &s.tramps {
                     let page = t.0 & !0xFFF;
+                    if s.panicked.is_some() {
+                        stranded.insert(page);
+                    }
                     if squat.contains(&page) || arena_pages.contains(&page) {
                         return rec.fail(&sig("trampoline-mapped-over-foreign-code"), format!("lifetime {li} step {si} ({}): the injector's trampoline mapping {:#x} lies on a page that held somebody else's code (it had released that address at the end of an earlier lifetime); case {c:?}", s.kind, t.0));
                     }
@@ -400,13 +419,13 @@ pub fn judge_c03(rec: &mut Recorder, c: &HistCase, ex: Exec, _hello: &Value) -> 
                     return rec.fail(&sig("foreign-executable-page-vanished"), format!("{at}: executable page {p:#x} vanished; it was never a trampoline; case {c:?}"));
                 }
             }
-            for p in &d.appeared {
+            for p in d.appeared.iter().filter(|p| !stranded.contains(p)) {
                 return rec.fail(&sig("unexpected-executable-page"), format!("{at}: executable page {p:#x} appeared during scope exit; case {c:?}"));
             }
             check_by(rec, &l.bystanders, &at)?;
         }
         if let Some(d) = &l.diff_vs_first {
-            if d.changed_total != 0 || d.appeared.iter().any(|p| !squat.contains(p)) || d.disappeared.iter().any(|p| !arena_pages.contains(p)) {
+            if d.changed_total != 0 || d.appeared.iter().any(|p| !squat.contains(p) && !stranded.contains(p)) || d.disappeared.iter().any(|p| !arena_pages.contains(p)) {
                 return rec.fail(&sig("executable-memory-differs-after-lifetime"), format!("after lifetime {li} executable memory differs from the snapshot before the first injector: {} bytes changed (first {:x?}), appeared {:x?}, disappeared {:x?}; case {c:?}", d.changed_total, d.changed.first(), d.appeared, d.disappeared));
             }
         }
